@@ -611,6 +611,7 @@ Definition in_domain (c : case) : bool :=
   | CHist d0 p0 raw steps =>
       doc_ok d0 && match p0 with [] => false | _ => true end &&
       match init_state d0 p0 raw with Some s => hist_okb s d0 (map fst steps) | None => false end
+  | CText _ _ _ _ _ => false
   end.
 
 (* verdict of run_case, plus 4 when the history is outside the domain of the theorems *)
